@@ -9,7 +9,8 @@ def run(ctx):
     for t, r in common.standard_theorems(ctx, "Props.C11", THEOREMS):
         ctx.violation("theorem:" + t, "property theorem %s no longer checks: %s" % (t, r[:500]),
                       {"theorem_or_correspondence": "ZL.Props.C11." + t}, found_input=False)
-    d = common.harness_json(["c11"])
+    cli = common.build_cli()
+    d = common.harness_json(["c11"], env={"VERIF_CLI": cli})
     gd = common.gendir("C11")
     # data obligation: the hypothesis of c11_never_panics / c11_error_local for non-table sections
     p = os.path.join(gd, "Obl_C11_not_table.v")
